@@ -8,6 +8,8 @@
     /venv/bin/python tools/props/c28_mkknown.py boot [seed ...]   props.c28.bootstrap(): add minimised witnesses of
                                                            classes the quick stream of these seeds finds
 Honour VERIF_REPO like the checks. known_findings.json is re-read immediately before it is written.
+With `--out SUFFIX` (e.g. `--out after`) nothing committed is touched: `expect` writes c28_expect.SUFFIX.json,
+`known` writes c28_corpus.SUFFIX.json and c28_known.SUFFIX.json (the list of C28 entries) next to the originals.
 """
 import json
 import os
@@ -37,9 +39,9 @@ def still_failing(corpus):
     return keep
 
 
-def known():
+def known(out=None):
     corpus = still_failing(m.load_corpus())
-    with open(m.CORPUS, 'w') as f:
+    with open(m.CORPUS if not out else m.CORPUS.replace('.json', '.%s.json' % out), 'w') as f:
         json.dump(corpus, f, indent=1)
     entries = []
     for c in corpus:
@@ -51,6 +53,11 @@ def known():
             exc, where, cls, c['task']['api'], c['task']['march'], c['task'].get('opt', 0), (c.get('msg') or '')[:80], prog)
         entries.append({'property': 'C28', 'status': 'known', 'match': {'exc': exc, 'where': where, 'class': cls},
                         'what': what})
+    if out:
+        with open(os.path.join(HERE, 'c28_known.%s.json' % out), 'w') as f:
+            json.dump(entries, f, indent=1)
+        print('%d witnesses still fail; entries written to c28_known.%s.json' % (len(corpus), out))
+        return
     d = json.load(open(KNOWN))          # re-read right before writing: other builders append to it
     d['findings'] = [f for f in d['findings'] if not (f.get('property') == 'C28' and f.get('status') == 'known')] + entries
     with open(KNOWN, 'w') as f:
@@ -58,7 +65,7 @@ def known():
     print('%d witnesses, %d findings in known_findings.json' % (len(corpus), len(d['findings'])))
 
 
-def expect():
+def expect(outname=None):
     ctx = vlib.Ctx('C28expect', 'thorough', 0)
     tasks = [t for t in m.streams(ctx, only_deterministic=True)]
     with R.Runner(4) as r:
@@ -67,18 +74,20 @@ def expect():
     for t, o in zip(tasks, res):
         if o['status'] in ('ok', 'diag'):
             out[m.task_sha(t)] = o['status'][0]
-    with open(m.EXPECT, 'w') as f:
+    with open(m.EXPECT if not outname else m.EXPECT.replace('.json', '.%s.json' % outname), 'w') as f:
         json.dump(out, f, sort_keys=True, separators=(',', ':'))
     print('%d of %d deterministic programs recorded as ok/diagnostic' % (len(out), len(tasks)))
 
 
 if __name__ == '__main__':
     cmd = sys.argv[1] if len(sys.argv) > 1 else ''
+    suffix = sys.argv[sys.argv.index('--out') + 1] if '--out' in sys.argv else None
     if cmd == 'known':
-        known()
+        known(suffix)
     elif cmd == 'expect':
-        expect()
+        expect(suffix)
     elif cmd == 'boot':
-        m.bootstrap(seeds=tuple(int(x) for x in sys.argv[2:]) or (0, 1, 2, 3), tier='quick', budget=200)
+        m.bootstrap(seeds=tuple(int(x) for x in sys.argv[2:] if x.lstrip('-').isdigit()) or (0, 1, 2, 3), tier='quick',
+                    budget=200)
     else:
         print(__doc__)
